@@ -74,8 +74,38 @@ fn class_of(line: &str) -> String {
     }
 }
 
+/// Every worker process plans in a directory of its own holding exactly the fixture files: a case whose command
+/// substitution creates a file (`` `a>$` ``) must not change what `*` matches for another case - or for the second plan of
+/// the same case (that race produced a false `plan:` difference in a thorough run).
+fn private_cwd() {
+    let base = std::env::var("C16_BASE").unwrap_or_default();
+    let d = format!("{}/w{}", base, std::process::id());
+    let here = std::env::current_dir().map(|c| c.to_string_lossy().to_string()).unwrap_or_default();
+    if here != d {
+        std::fs::create_dir_all(&d).unwrap();
+        std::env::set_current_dir(&d).unwrap();
+        std::env::set_var("HOME", &d);
+    }
+    if let Ok(rd) = std::fs::read_dir(&d) {
+        for e in rd.flatten() {
+            let name = e.file_name().to_string_lossy().to_string();
+            if !["a", "aa", "a a"].contains(&name.as_str()) {
+                let p = e.path();
+                let _ = if p.is_dir() { std::fs::remove_dir_all(&p) } else { std::fs::remove_file(&p) };
+            }
+        }
+    }
+    for f in ["a", "aa", "a a"] {
+        let p = format!("{}/{}", d, f);
+        if !std::path::Path::new(&p).exists() {
+            let _ = std::fs::write(&p, b"x");
+        }
+    }
+}
+
 fn run_case(s: &String, acc: &mut Acc) {
     acc.eval();
+    private_cwd();
     let li = vh::parse_line(s);
     if !li.is_complete {
         // an incomplete line cannot be submitted at the prompt (the editor asks for more input)
@@ -85,6 +115,7 @@ fn run_case(s: &String, acc: &mut Acc) {
     let mut sh = vh::Shell::new();
     let direct = view(&mut sh, s);
     let rendered = vh::expand_args(s, &[]);
+    private_cwd();
     let mut sh2 = vh::Shell::new();
     let script = view(&mut sh2, &rendered);
     if direct.iter().any(|x| x.starts_with("CMD")) {
@@ -108,6 +139,7 @@ pub fn run(ctx: &Ctx) -> Value {
         let _ = std::fs::write(format!("{}/{}", cwd, f), b"x");
     }
     std::env::set_current_dir(&cwd).unwrap();
+    std::env::set_var("C16_BASE", &cwd);
     std::env::set_var("PATH", format!("{}/nopath", ctx.scratch));
     std::env::set_var("HOME", &cwd);
     std::env::set_var("a", "VA");
